@@ -308,7 +308,7 @@ def apply_op(R, g, op, chars):
     elif k == 'rotate':
         g.rotate(op['angle'], wells=True)
     elif k == 'copy_layers':
-        other = mulgrids.mulgrid().rectangular([10.], [10.], op['dz'], origin=[0., 0., g.layerlist[0].bottom], convention=g.convention)
+        other = mulgrids.mulgrid().rectangular([10.], [10.], op['dz'], origin=[0., 0., g.layerlist[0].bottom + op.get('top', 0.)], convention=g.convention)
         if len(op['dz']) > geo.layer_capacity(g.convention): return g, None
         g.copy_layers_from(other)
     elif k == 'file':
@@ -407,7 +407,7 @@ def small_alphabet(ncols, max_subset):
     for c in range(3): A.append({'op': 'readd_connection', 'con': c}); A.append({'op': 'delete_connection', 'con': c})
     A += [{'op': 'decompose'}, {'op': 'snap', 'min': 3.0}, {'op': 'snap_nearest'}, {'op': 'add_layer'}, {'op': 'delete_layer'},
           {'op': 'rename_layer', 'lay': 0}, {'op': 'add_well'}, {'op': 'delete_well', 'w': 0}, {'op': 'translate', 'shift': [5., -3., 2.]},
-          {'op': 'rotate', 'angle': 30.}, {'op': 'copy_layers', 'dz': [3., 3., 5., 9.]}, {'op': 'file'}, {'op': 'add_node'},
+          {'op': 'rotate', 'angle': 30.}, {'op': 'copy_layers', 'dz': [3., 3., 5., 9.]}, {'op': 'copy_layers', 'dz': [3., 3., 5., 9.], 'top': 6.}, {'op': 'file'}, {'op': 'add_node'},
           {'op': 'delete_orphan_node'}]
     for n in range(1, ncols):
         for seed in range(ncols): A.append({'op': 'reduce', 'seed': seed, 'n': n - 1})
@@ -450,7 +450,8 @@ def op_strategy():
         st.just({'op': 'add_well'}), st.builds(lambda w: {'op': 'delete_well', 'w': w}, i),
         st.builds(lambda x, y, z: {'op': 'translate', 'shift': [x, y, z]}, st.sampled_from([-50., 0., 30.]), st.sampled_from([-20., 10.]), st.sampled_from([-5., 0., 8.])),
         st.builds(lambda a: {'op': 'rotate', 'angle': a}, st.sampled_from([15., 45., 90., -60.])),
-        st.builds(lambda d: {'op': 'copy_layers', 'dz': d}, st.lists(st.sampled_from([2., 5., 10.]), min_size=1, max_size=6)),
+        st.builds(lambda d, t: {'op': 'copy_layers', 'dz': d, 'top': t}, st.lists(st.sampled_from([2., 5., 10.]), min_size=1, max_size=6),
+                  st.sampled_from([0., 0., 5., 12., -5., -12.])),
         st.just({'op': 'file'}), st.just({'op': 'add_node'}), st.just({'op': 'delete_orphan_node'}))
 
 
